@@ -28,6 +28,20 @@ Streams
           (`flstep_nonlocal_nonoptimal`), not flagged - C14 does not claim optimality
           (design-notes/c14_opt_witness.py).  Movies whose every step keeps the side condition also go
           through `FLRUN` with opt=1.
+  cam   : raw movies as cameras produce them - a smooth background (linear gradient in 8 directions,
+          bright region / vignette, one dark corner, sigmoid edge of an out-of-focus region, constant
+          offset) under slow illumination drift between frames (gain and / or additive), uint8 or
+          float frames, 44-88 px - through `find_link(preprocess=True)`: the band-pass is what removes
+          such a background, and both the first pass and the relocation of lost features have to work
+          on the cleaned frame.  Mostly regime "sep" (same premise as above, blobs of the brightness
+          of the background variation); the generator states the premise on ITS OWN band-pass (scipy
+          only): nothing but the blobs is left of the cleaned frame (the clipping `threshold` is
+          chosen accordingly, as a user would), every blob is a clear maximum of it above the
+          percentile threshold, minmass stays below the band-passed mass of the dimmest blob.  Also
+          varies what the movie stream keeps fixed: percentile, noise_size, smoothing_size, threshold,
+          diameter a little below / above the separation, a do-nothing `after_link` hook, list vs
+          reader object.  One fifth are the adversarial layouts of the movie stream on such a
+          background (admissibility only).
   call  : `FindLinker.get_relocate_candidates` driven directly on tie-heavy small images (2-D and
           3-D) with planted sources / background features at exact-boundary distances; same
           comparison, plus the call-level oracle.
@@ -38,7 +52,11 @@ sum((d_i/separation_i)^2) >= 1; every feature that was not among the detections 
 within search_range (ellipsoid, edge included) of a feature of one of the previous memory+1 output
 frames; every feature keeps the margin radius_i <= c_i <= shape_i - radius_i - 1; mass finite and
 >= minmass.  Call level: the same clauses for the returned candidates against the sources and the
-current hash.
+current hash.  Recovery clause (regime sep, every handed / emitted feature is a rendered blob): every
+blob carries one label through all frames, labels differ between blobs; a withheld detection of a blob
+that the first pass would have kept (mass of the feature mask on the frame handed to find_link >=
+minmass) is in the output AT ITS OWN PIXEL (the complete trajectories are those of the complete
+detections); nothing withheld -> the partition equals detect-then-link.
 """
 import contextlib
 import math
@@ -57,7 +75,12 @@ RULE = ("movie stream: 2-D uint8 movies 32-64 px, 3-6 frames, 1-6 Gaussian blobs
         "memory 0-1, preprocess on/off, fault pattern none/one/all/random; regimes sep (recovery "
         "asserted) and adv (admissibility only; margins, approaching pairs, shortage 2).  call "
         "stream: direct get_relocate_candidates on palette images 12-28 px (3-D 8-12 px) with "
-        "sources/background at exact-boundary distances.  Non-trivial = at least one relocation "
+        "sources/background at exact-boundary distances.  cam stream: raw camera movies 44-88 px "
+        "(background gradient / vignette / dark corner / sigmoid edge / offset up to 200 grey levels, "
+        "gain 0.9-1.08 and additive drift between frames, uint8 or float64 frames, blobs of amplitude "
+        "30-100) with preprocess=True, percentile 30-75, noise_size 0.8-1.5, smoothing_size default or "
+        "explicit, threshold default or explicit, after_link no-op hook, list or reader object; 4/5 in "
+        "regime sep with the premise checked on the generator's own band-pass.  Non-trivial = at least one relocation "
         "call returned a candidate (movie: and it was emitted) ; distinct = distinct canonical "
         "input.")
 ASSUMPTIONS = [
@@ -79,6 +102,16 @@ ASSUMPTIONS = [
     "apart than separation + 2*search_range + diameter, farther than radius + search_range + 3 "
     "from the border, displacement <= search_range - 1.5 px, noise mass below minmass)",
     "trajectories are compared as partitions (label values are unspecified)",
+    "cam stream, regime sep: the premise 'the first pass finds exactly the rendered blobs' is stated by "
+    "the generator on its own band-pass (scipy Gaussian minus rolling average, clipped); the code's "
+    "rolling average of an integer frame is computed in integer arithmetic and may leave up to 2 grey "
+    "levels more, so the clipping threshold handed to find_link is chosen >= residue + 2.25 for uint8 "
+    "frames (draws that would need a threshold above 10, or whose dimmest blob is not 1.2 x above the "
+    "percentile threshold, are discarded); minmass <= 0.8 x the band-passed mass of the dimmest blob",
+    "with preprocess=True find_link applies minmass to the RAW-frame mass in the first pass and to the "
+    "band-passed mass in the relocation: a minmass between the two (a blob the first pass keeps but the "
+    "relocation refuses) is kept out of the generators - reported as an observation on the unchanged "
+    "tree, not asserted",
     "FLSTEP (model of one next_level): the state is rebuilt from the implementation's own labelled "
     "levels; the relocation oracle is the table of this run's get_relocate_candidates return values "
     "keyed by the SET of source positions; steps beyond the neighbour cap / sub-net size limit are "
@@ -918,6 +951,14 @@ def gen_cam_movie(rng):
                 m = disc_mass(cl, (y, x), rad)
                 mass_min = m if mass_min is None else min(mass_min, m)
         if ok:
+            # minmass stays BELOW the band-passed mass of the dimmest blob.  Kept out on purpose: a
+            # minmass between the band-passed mass and the raw-frame mass of a blob.  The unchanged
+            # tree fails the recovery clause there: find_link_iter filters the first pass on
+            # characterize(coords, image) of the RAW frame, FindLinker.get_relocate_candidates on the
+            # mass in the band-passed frame, so a blob that the first pass keeps is refused when it has
+            # to be re-found.  E.g. one blob (amplitude 60, sigma 1.5) on a 48x56 black frame,
+            # separation 9, search_range 4, preprocess=True, minmass 400: raw mass 824, band-passed
+            # mass 381 -> found in frame 0, withheld in frames 1-2, never re-found (reported).
             minmass = rng.choice([0, 30, int(0.5 * mass_min), int(0.8 * mass_min)])
             inp = dict(stream="cam", regime="sep", shape=[H, W], frames=frames, flicker=None,
                        noise=noise, memory=rng.choice([0, 0, 1]), minmass=minmass, preprocess=True,
